@@ -219,7 +219,11 @@ func (g *gen) newMuxOp() op {
 	case p < 7:
 		gs = -3
 	case p < 10:
-		e := []int{math.MaxInt64, math.MaxInt64 - 64, math.MaxInt64 - 65, 1 << 62, math.MinInt64}
+		// only sizes no payload can hold: a huge multiplexer that FITS a huge message makes the filter computation
+		// (linear in the signal size) exhaust the memory
+		// (the accepted boundary MaxInt64-64 is a corpus entry: a multiplexer of that size fits a message of 2^60-1
+		// bytes and would be accepted there)
+		e := []int{math.MaxInt64, math.MaxInt64 - 63, math.MaxInt64 - 1, math.MinInt64}
 		gs = e[r.below(len(e))]
 	}
 	return op{k: "newmux", a: c, z: gs}
@@ -815,6 +819,22 @@ func randomHistory(seed uint64, mode string, nops, zonePct int) *runner {
 			break
 		}
 		if !g.emit(o) {
+			break
+		}
+		if o.k == "newmsg" && (o.z > 1<<40 || o.z < -(1<<40)) {
+			// a message whose size is astronomic (finding "ctor" beyond 2^60): one small edit, then the history
+			// ends - other edits (a giant multiplexer that fits the wrapped layout) make the filter computation of
+			// the library exhaust the memory
+			m := len(g.sn().msgs) - 1
+			free := g.sigsWhere(func(h int) bool { return !g.sn().attached(h) && g.kind(h) != acmelib.SignalKindMultiplexer })
+			if len(free) > 0 {
+				x := g.r.pick(free)
+				if g.r.chance(50) {
+					g.emit(op{k: "insert", a: m, b: x, z: []int{0, 100, 7}[g.r.below(3)]})
+				} else {
+					g.emit(op{k: "append", a: m, b: x})
+				}
+			}
 			break
 		}
 		if o.k == "resizebus" && o.z > busLimit && g.r.chance(70) {
